@@ -43,14 +43,18 @@ def build(spec):
             regions = []
             if nested is not None:
                 nb = Block()
-                for (k2, refs2, nres2, _n) in nested:
-                    nb.add_op(mk(k2, [], nres2))
+                for ni, (k2, refs2, nres2, _n) in enumerate(nested):
+                    no = mk(k2, [], nres2)
+                    nb.add_op(no)
+                    made[(bi, oi, ni)] = (no, refs2)
+                if len(nested) % 2:
+                    nb.add_op(test.TestTermOp.create())
                 regions = [Region([nb])]
             o = mk(kind, [], nres, regions)
             made[(bi, oi)] = (o, refs)
             blocks[bi].add_op(o)
-    allres = [(k, o.results) for k, (o, _) in made.items() if o.results]
-    for (bi, oi), (o, refs) in made.items():
+    allres = [(k, o.results) for k, (o, _) in made.items() if o.results and len(k) == 2]
+    for _k, (o, refs) in made.items():
         if o.name == "test.op_with_symbol" or not allres:
             continue
         ops = []
@@ -65,13 +69,25 @@ def build(spec):
     region = top.regions[0]
     # keep the input valid: an op in a reachable block must not use a value defined in an unreachable block
     reach = {id(b) for b in reachable(region)}
-    for b in _blocks(region):
-        if id(b) not in reach:
+    top_blocks = {id(b) for b in _blocks(region)}
+
+    def top_block_of(o):
+        cur = o
+        while id(cur.parent) not in top_blocks:
+            cur = cur.parent.parent.parent
+        return cur.parent
+
+    for k, (o, _) in made.items():
+        if id(top_block_of(o)) not in reach:
             continue
-        for o in _ops(b):
-            keep = [v for v in o._operands if id(v.op.parent) in reach]
-            if len(keep) != len(o._operands):
-                o.operands = keep
+        # defs must be visible: a top-level op of a reachable block (nested results are not visible outside their region)
+        keep = [v for v in o._operands if id(v.op.parent) in reach and (len(k) == 2 or v.op.parent is not o.parent)]
+        keep = [v for v in keep if id(v.op.parent) in top_blocks]
+        if len(k) == 3:
+            # a nested op cannot see the results of the op that contains it
+            keep = [v for v in keep if v.op is not o.parent.parent.parent]
+        if len(keep) != len(o._operands):
+            o.operands = keep
     return ModuleOp([top]), region
 
 
@@ -84,7 +100,8 @@ def gen(rnd):
             kind = rnd.choice(KINDS[:4]) if rnd.random() < 0.9 else "symbol"
             nested = None
             if rnd.random() < 0.15 and kind != "symbol":
-                nested = [(rnd.choice(KINDS[:4]), [], rnd.randrange(0, 2), None) for _ in range(rnd.randrange(0, 3))]
+                nested = [(rnd.choice(KINDS[:4]), [rnd.randrange(0, 40) for _ in range(rnd.randrange(0, 2))], rnd.randrange(0, 2), None)
+                          for _ in range(rnd.randrange(0, 3))]
             ops.append((kind, [rnd.randrange(0, 40) for _ in range(rnd.randrange(0, 3))], rnd.randrange(0, 3), nested))
         succ = [rnd.randrange(0, nb) for _ in range(rnd.randrange(0, 3))]
         blocks.append({"ops": ops, "succ": succ})
@@ -139,24 +156,61 @@ def reachable(region):
 
 
 def oracle_live(region):
-    """Least set of ops (in reachable blocks) that must stay: observable ops and (transitively) definers of their operands."""
-    reach = reachable(region)
-    ops = [o for b in reach for o in _ops(b)]
-    opset = {id(o) for o in ops}
+    """
+    Least set of ops that must stay, over the whole op tree: an op stays iff its parent stays (or it is at the top), its block is
+    reachable in its region, and it is observable or (transitively) defines an operand of an op that stays.
+    """
+    def all_ops(r, acc):
+        for b in _blocks(r):
+            for o in _ops(b):
+                acc.append(o)
+                for rr in o.regions:
+                    all_ops(rr, acc)
+        return acc
+
+    ops = all_ops(region, [])
+    reach_cache = {}
+
+    def in_reachable_block(o):
+        r = o.parent.parent
+        if id(r) not in reach_cache:
+            reach_cache[id(r)] = {id(b) for b in reachable(r)}
+        return id(o.parent) in reach_cache[id(r)]
+
+    def parent_op(o):
+        p = o.parent.parent.parent
+        return None if p is region.parent else p
+
     live = {}
-    work = []
-    for o in ops:
-        if not effects_known_harmless(o):
-            live[id(o)] = o
-            work.append(o)
-    while work:
-        o = work.pop()
-        for v in o._operands:
-            d = getattr(v, "op", None)
-            if d is not None and id(d) in opset and id(d) not in live:
-                live[id(d)] = d
-                work.append(d)
-    return reach, ops, live
+    changed = True
+    while changed:
+        changed = False
+        for o in ops:
+            if id(o) in live or not in_reachable_block(o):
+                continue
+            p = parent_op(o)
+            if p is not None and id(p) not in live:
+                continue
+            if (not effects_known_harmless(o)) or any(id(u.operation) in live for r in o.results for u in r.uses):
+                live[id(o)] = o
+                changed = True
+    return reachable(region), ops, live
+
+
+def structure(region, live=None):
+    """Remaining structure as nested lists of op identities (restricted to `live` ops of reachable blocks when given)."""
+    out = []
+    for b in (reachable(region) if live is not None else _blocks(region)):
+        row = []
+        for o in _ops(b):
+            if live is not None and id(o) not in live:
+                continue
+            row.append((id(o), [structure(r, live) for r in o.regions]))
+        out.append((id(b), row))
+    if live is not None:
+        order = {id(b): i for i, b in enumerate(_blocks(region))}
+        out.sort(key=lambda x: order[x[0]])
+    return out
 
 
 @rechecked
@@ -165,8 +219,15 @@ def check_region_dce(spec, entry):
 
     module, region = build(spec)
     reach, ops, live = oracle_live(region)
-    expected_blocks = [id(b) for b in _blocks(region) if any(b is r for r in reach)]
-    expected_ops = {id(b): [id(o) for o in _ops(b) if id(o) in live] for b in reach}
+    expected = structure(region, live)
+    dead_user = False
+    for p_ in ops:
+        if id(p_) in live or not p_.regions:
+            continue
+        inside = {id(x) for x in p_.walk()}
+        for x in p_.walk():
+            if x is not p_ and any(id(v.op) not in inside for v in x._operands):
+                dead_user = True
     before = str(module)
     try:
         if entry == "region_dce":
@@ -181,16 +242,11 @@ def check_region_dce(spec, entry):
         return {"entry": entry, "program": before, "after": str(module), "broken IR": str(e), "key": f"C13/{entry}"}
     got_blocks = [id(b) for b in _blocks(region)]
     if entry == "region_dce":
-        if got_blocks != expected_blocks:
-            return {"entry": entry, "program": before, "after": str(module), "why": "set of remaining blocks differs from the reachable blocks",
+        got = structure(region)
+        if got != expected:
+            return {"entry": entry, "program": before, "after": str(module), "inputs": {"dead_region_op_contains_a_user_of_an_outer_value": dead_user},
+                    "why": "remaining ops/blocks (at every nesting level) differ from the oracle: an op that must stay was removed, or a removable op / unreachable block was kept",
                     "key": f"C13/{entry}"}
-        for b in _blocks(region):
-            got = [id(o) for o in _ops(b)]
-            if got != expected_ops[id(b)]:
-                kept_dead = [o.name for o in _ops(b) if id(o) not in live]
-                return {"entry": entry, "program": before, "after": str(module), "removable ops left": kept_dead,
-                        "why": "remaining ops differ from the live set of the oracle (an observable op was removed or a removable one kept)",
-                        "key": f"C13/{entry}"}
     else:
         # the trivial-dead pattern: removes only harmless ops without (remaining) uses; never blocks; fixpoint: no trivially dead op remains
         if got_blocks != [id(b) for b in _blocks(region)] or len(got_blocks) != len(spec["blocks"]):
@@ -239,8 +295,9 @@ def explore(tier, seed):
         for entry in ("region_dce", "dce"):
             cases += 1
             f = check_region_dce(spec, entry)
-            if f and f["key"] not in seen:
-                seen.add(f["key"])
+            k = (f["key"], tuple(sorted((f.get("inputs") or {}).items()))) if f else None
+            if f and k not in seen:
+                seen.add(k)
                 fails.append(f)
         cases += 1
         f = check_observable_kept(spec)
